@@ -50,7 +50,9 @@ def r1_rooted(chk: Check):
     rets = [src(x.value) for x in body_walk(jp.node) if isinstance(x, ast.Return)]
     chk.require(rets == ["self.job.path"], chk.fkey(jp, "job directory"), f"JobContext.path returns {rets}; expected the job directory", chk.loc(jp.module, jp.node))
     sub = tree.func("core.objects", "ConfigInformation.submit")
-    ok = any(isinstance(s, ast.Assign) and src(s.value) == "JobContext(self.job)" for s in body_walk(sub.node)) and any(src(c) == "self.validate_and_seal(job_context)" for c in fn_calls(sub.node))
+    gs = CFG(sub.node)
+    rds = ReachingDefs(gs)
+    ok = any(tail(c) == "validate_and_seal" and len(c.args) == 1 and rds.canon(c.args[0], n) == "JobContext(self.job)" for n, c in gs.call_nodes(lambda c: tail(c) == "validate_and_seal"))
     chk.require(ok, chk.fkey(sub, "sealed with the job context"), "a submitted task must be sealed with the context of its own job", chk.loc(sub.module, sub.node))
 
 
